@@ -204,6 +204,8 @@ Proof.
   - (* LDeliver *) eapply (InvA_same s _ j c0 (set_out c0 (Reply (r_pay r0)) (k_e c0))); eauto; pcs; rewrite Heqp; reflexivity.
   - (* LGiveUp *) eapply InvA_frame; eauto.
   - (* LIdleClose *) eapply InvA_frame; eauto.
+  - (* LCancel *) eapply (InvA_same s _ i c0 (set_out c0 Cancelled (k_e c0))); eauto; pcs; rewrite Heqp; reflexivity.
+  - (* LFilterErr *) eapply (InvA_same s _ i c0 (set_full c0)); eauto; pcs; rewrite Heqp; reflexivity.
 Qed.
 
 Theorem InvA_reach : forall c s, reach c s -> InvA s.
@@ -474,6 +476,8 @@ Proof.
   - (* LDeliver *)
     pose proof (HR _ _ Heqo) as [Hin Hrf]. rewrite Heqr1 in Hrf. destruct Hrf as [Hc _]. apply call_of_id in Hc.
     osolve.
+  - (* LCancel *) osolve.
+  - (* LFilterErr *) osolve.
 Qed.
 
 Theorem InvO_reach : forall c s, reach c s -> InvO s.
@@ -553,11 +557,12 @@ Theorem outcome_classes : forall c s i k, reach c s -> nth_error (calls s) i = S
     | Timeout => k_dl k <= k_ret k                         (* never before the deadline *)
     | Error => ~ In i (sendq s) /\ ~ In i (wire s)         (* the request never left *)
     | Sent => k_ow k = true /\ (In i (sendq s) \/ In i (wire s))   (* one-way: the request was queued *)
+    | Cancelled => True                                    (* the caller gave up while the call waited *)
     end.
 Proof.
   intros c s i k H Hk Hp. destruct (InvO_reach c s H) as [HO _]. specialize (HO _ _ Hk). unfold out_ok in HO. rewrite Hp in HO.
   destruct HO as [[[o Ho] Ht] [Hr [_ [He [Hs Hw]]]]]. exists o. split; [exact Ho|].
-  destruct o; [apply Hr; exact Ho|apply Ht; exact Ho|apply He; exact Ho|split; [apply Hw; exact Ho|apply Hs; exact Ho]].
+  destruct o; [apply Hr; exact Ho|apply Ht; exact Ho|apply He; exact Ho|split; [apply Hw; exact Ho|apply Hs; exact Ho]|exact I].
 Qed.
 
 (* ---- returns ---- *)
@@ -803,23 +808,72 @@ Proof.
   - exists [], s. cbn. repeat split; auto. rewrite Hu. discriminate.
 Qed.
 
+(* ---- the resource ledger of a call: everything a call can hold, cleared whatever its outcome ---- *)
+Record ledger_clear (c : cfg) (s : state) (i : nat) : Prop := {
+  lc_table : ~ In i (resp s);                                        (* no entry in the pending-reply table *)
+  lc_counts : forall k, nth_error (calls s) i = Some k -> inside k = false /\ invoked k = false;
+                                                                      (* counted neither in queueLen nor in invokeNum *)
+  lc_lock : lock s <> Some i;                                        (* does not hold connLock *)
+  lc_queue : forall k, nth_error (calls s) i = Some k -> k_out k = Some Error -> ~ In i (sendq s) /\ ~ In i (wire s);
+  lc_timers : step c s (LCtxFire i) = None /\ step c s (LCancel i) = None /\ step c s (LEnqTimeout i) = None /\
+              step c s (LDialTimeout i) = None;                       (* none of its timers can act any more *)
+  lc_receivers : forall r x, nth_error (rcvs s) r = Some x -> r_pc x = RFound i ->
+                   now s <= r_t0 x + readT c /\ step c s (LDeliver r) = None
+                                (* a receiver still holding its reply channel is released within ReadTimeout and cannot deliver *) }.
+
+Theorem ledger_all_outcomes : forall c s i k, reach c s -> nth_error (calls s) i = Some k -> k_pc k = Returned ->
+  (exists o, k_out k = Some o) /\ (forall o, k_out k = Some o -> ledger_clear c s i).
+Proof.
+  intros c s i k H Hk Hp.
+  destruct (InvO_reach c s H) as [HO _]. pose proof (HO _ _ Hk) as Hok. unfold out_ok in Hok. rewrite Hp in Hok.
+  destruct Hok as [[[o Ho] _] [_ [_ [He _]]]]. split; [exists o; exact Ho|]. intros o' _.
+  destruct (InvA_reach c s H) as [_ _ Hr _]. destruct (InvL_reach c s H) as [HL1 _].
+  split.
+  - intros Hin. apply Hr in Hin. destruct Hin as [k' [Hk' Hi]]. rewrite Hk in Hk'. inversion Hk'; subst k'.
+    unfold inside in Hi. rewrite Hp in Hi. discriminate.
+  - intros k' Hk'. rewrite Hk in Hk'. inversion Hk'; subst k'. unfold inside, invoked. rewrite Hp. auto.
+  - intros Hl. destruct (HL1 _ Hl) as [k' [Hk' Hd]]. rewrite Hk in Hk'. inversion Hk'; subst k'. congruence.
+  - intros k' Hk' Hoe. rewrite Hk in Hk'. inversion Hk'; subst k'. apply He. exact Hoe.
+  - cbn [step]. rewrite Hk, Hp. auto.
+  - intros r x Hx Hf. split.
+    + pose proof (InvR_reach c s H _ _ Hx) as [_ Hrf]. rewrite Hf in Hrf. tauto.
+    + cbn [step]. rewrite Hx, Hf, Hk, Hp. reflexivity.
+Qed.
+
+(* every way a call can end is a run of the model: one reachable returned call per outcome (and per path to Error) *)
+Example outcome_paths_exist :
+  let cfg0 := mkcfg 30 40 10 1 100000 60000 in
+  let ret ls i := match run cfg0 init ls with
+                  | Some s => match nth_error (calls s) i with Some k => match k_pc k with Returned => k_out k | _ => None end | None => None end
+                  | None => None end in
+  ret [Start 20 false; LPre 0; LReg 0; LLock 0; LDialOk 0; LEnq 0; LSendTake; LPeerPkt 1 7; LLookup 0; LDeliver 0; LClean 0; LPost 0] 0%nat = Some (Reply 7) /\
+  ret ([Start 20 false; LPre 0; LReg 0; LLock 0; LDialOk 0; LEnq 0] ++ ticks 20 ++ [LCtxFire 0; LClean 0; LPost 0]) 0%nat = Some Timeout /\
+  ret [Start 20 false; LPre 0; LReg 0; LLock 0; LDialOk 0; LEnq 0; LCancel 0; LClean 0; LPost 0] 0%nat = Some Cancelled /\
+  ret [Start 20 false; LPre 0; LReg 0; LLock 0; LDialFail 0; LClean 0; LPost 0] 0%nat = Some Error /\
+  ret ([Start 20 false; LPre 0; LReg 0; LLock 0] ++ ticks 30 ++ [LDialTimeout 0; LClean 0; LPost 0]) 0%nat = Some Error /\
+  ret ([Start 20 false; Start 20 false; LPre 0; LReg 0; LLock 0; LDialOk 0; LEnq 0; LPre 1; LReg 1; LLock 1] ++ ticks 20 ++
+       [LCtxFire 0; LClean 0; LPost 0] ++ ticks 20 ++ [LEnqTimeout 1; LClean 1; LPost 1]) 1%nat = Some Error /\
+  ret [Start 20 false; LPre 0; LFilterErr 0; LPost 0] 0%nat = Some Error /\
+  ret [Start 20 true; LPre 0; LReg 0; LLock 0; LDialOk 0; LEnq 0; LClean 0; LPost 0] 0%nat = Some Sent.
+Proof. vm_compute. repeat split; reflexivity. Qed.
+
 (* ---- non-vacuity: concrete reachable runs ---- *)
 Example silent_peer_times_out :
-  let '(s, _, ok) := canonical (mkscen (mkcfg 30 40 10 4 100000 60000) CAccept [mkact false None false false] 1 1 20 [0] false false) in
+  let '(s, _, ok) := canonical (mkscen (mkcfg 30 40 10 4 100000 60000) CAccept [mkact false None false false] 1 1 20 [0] false None 0 false) in
   ok = true /\ model_calls s = [(OTimeout, 20)] /\ queueLen s = 0%Z /\ invokeNum s = 0%Z /\ resp s = [].
 Proof. vm_compute. repeat split; reflexivity. Qed.
 
 Example late_then_fast_replies :
-  let '(s, _, ok) := canonical (mkscen (mkcfg 30 40 10 4 100000 60000) CAccept [mkact false (Some 30) false false; mkact false (Some 0) false false] 1 2 20 [1] false false) in
+  let '(s, _, ok) := canonical (mkscen (mkcfg 30 40 10 4 100000 60000) CAccept [mkact false (Some 30) false false; mkact false (Some 0) false false] 1 2 20 [1] false None 0 false) in
   ok = true /\ model_calls s = [(OTimeout, 20); (OReply, 0)] /\ queueLen s = 0%Z /\ invokeNum s = 0%Z /\ resp s = [].
 Proof. vm_compute. repeat split; reflexivity. Qed.
 
 Example one_way_returns_at_once :
-  let '(s, _, ok) := canonical (mkscen (mkcfg 30 40 10 4 100000 60000) CAccept [mkact false None false false] 1 2 20 [1] true false) in
+  let '(s, _, ok) := canonical (mkscen (mkcfg 30 40 10 4 100000 60000) CAccept [mkact false None false false] 1 2 20 [1] true None 0 false) in
   ok = true /\ model_calls s = [(OSent, 0); (OSent, 0)] /\ queueLen s = 0%Z /\ invokeNum s = 0%Z /\ resp s = [].
 Proof. vm_compute. repeat split; reflexivity. Qed.
 
 Example stalled_three_callers :
-  let '(s, _, ok) := canonical (mkscen (mkcfg 30 40 10 4 100000 60000) CStall [mkact false None false false] 3 1 10 [0] false false) in
+  let '(s, _, ok) := canonical (mkscen (mkcfg 30 40 10 4 100000 60000) CStall [mkact false None false false] 3 1 10 [0] false None 0 false) in
   ok = true /\ model_calls s = [(OError, 30); (OError, 60); (OError, 90)].
 Proof. vm_compute. repeat split; reflexivity. Qed.
